@@ -184,6 +184,11 @@ def project(scenarios, events, rep):
             t = dict(BLANK)
             t.update({"ev": "other", "sc": sid, "i": e["i"], "k": k, "hasobs": areas is not None, "areas": areas or []})
             a = acts[sid][e["i"]]
+            if k == "skip":
+                # depends on the result of a call that failed (judged there): nothing happened
+                t["_src"] = e
+                res_list.append(t)
+                continue
             skip = False
             if ev in ("new", "from_binary"):
                 t["ev"] = "new"
